@@ -13,6 +13,7 @@ import (
 	"crypto/x509/pkix"
 	"encoding/base64"
 	"encoding/hex"
+	"encoding/json"
 	"encoding/pem"
 	"fmt"
 	"math/big"
@@ -22,7 +23,6 @@ import (
 
 	sigkeeper "github.com/chain4energy/c4e-chain/x/cfesignature/keeper"
 	sigtypes "github.com/chain4energy/c4e-chain/x/cfesignature/types"
-	sigutil "github.com/chain4energy/c4e-chain/x/cfesignature/util"
 	"github.com/cosmos/cosmos-sdk/crypto/keys/secp256k1"
 	cryptotypes "github.com/cosmos/cosmos-sdk/crypto/types"
 	"github.com/cosmos/cosmos-sdk/store/prefix"
@@ -172,10 +172,14 @@ func execSig(x *Exec, toks []string) string {
 		c := parseAddrTok(toks[1])
 		js := unesc(toks[3])
 		// facts about the JSON extraction
-		sg, e1 := sigutil.ExtractFieldFromJSON(js, "signature")
-		al, e2 := sigutil.ExtractFieldFromJSON(js, "algorithm")
-		ce, e3 := sigutil.ExtractFieldFromJSON(js, "certificate")
-		okJSON := e1 == nil && e2 == nil && e3 == nil
+		// (independent of the repository's own extraction helper, which is part of what is under test)
+		var parsed map[string]interface{}
+		okJSON := json.Unmarshal([]byte(js), &parsed) == nil
+		field := func(k string) string {
+			v, _ := parsed[k].(string)
+			return v
+		}
+		sg, al, ce := field("signature"), field("algorithm"), field("certificate")
 		if okJSON != (toks[4] == "1") || (okJSON && (sg != unesc(toks[5]) || al != unesc(toks[6]) || ce != unesc(toks[7]))) {
 			panic("s.store extraction facts wrong")
 		}
@@ -249,7 +253,7 @@ func execSig(x *Exec, toks []string) string {
 			ai = app.AccountKeeper.NewAccountWithAddress(x.ctx, addr)
 		}
 		if toks[2] == "basekey" {
-			var pub cryptotypes.PubKey = secp256k1.GenPrivKey().PubKey()
+			var pub cryptotypes.PubKey = secp256k1.GenPrivKeyFromSecret([]byte("verif-key-for-" + toks[1])).PubKey()
 			if kp := keyedPubFor(toks[1]); kp != nil {
 				pub = kp
 			}
@@ -488,7 +492,7 @@ func genSig(g *Gen, n int) {
 			case 1:
 				js, fs = fmt.Sprintf("{\"algorithm\":%s,\"certificate\":%s}", jsonStr(alg), jsonStr(cert)), ""
 			case 2:
-				js, fa = fmt.Sprintf("{\"signature\":%s,\"algorithm\":5,\"certificate\":%s}", jsonStr(sig), jsonStr(cert)), ""
+				js, fa = fmt.Sprintf("{\"signature\":%s,\"algorithm\":%s,\"certificate\":%s}", jsonStr(sig), g.pick("5", "null", "true", "{}", "[1]"), jsonStr(cert)), ""
 			}
 			sk := storageKey
 			if g.chance(0.07) {
